@@ -1,4 +1,5 @@
 CONSTANTS Design = "no_binsearch" W = 8
+CONSTANT Cond <- CondThr
 SPECIFICATION Spec
 INVARIANTS Exact Sound
 CHECK_DEADLOCK FALSE
